@@ -20,6 +20,23 @@ theorem linked_frame_bytes_decode_to_input (E : Env) (ok : EnvOKL E) (hashOf : A
     ∃ F, pFrame E [] F (frame E hashOf p ops) = .ok (contentOf ops, []) :=
   ⟨_, frameL_parses E ok hashOf p hb hcs64 hd32 ops hleg hcs⟩
 
+/-- **linked blocks with a dictionary** (`LZ4F_compressBegin_usingCDict` / `_usingDict` at the fast levels): whatever the context's LZ4 stream held before,
+    for every schedule after the dictionary event, the frame decodes — the decoder being given the dictionary — to exactly the blocks -/
+theorem linked_frame_with_dictionary_decodes (E : Env) (ok : EnvOKL E) (hashOf : Array UInt8 → Bool → Nat → Nat) (p : Prefs) (hb : 4 ≤ p.bsid ∧ p.bsid ≤ 7)
+    (hcs64 : p.contentSize < 256 ^ 8) (hd32 : p.dictID < 256 ^ 4) (dict : Bytes) (S0 : FastX.XState) (hJ0 : FastX.JX S0) (addr : Nat) (d : Array UInt8)
+    (hT : FastX.IsTail d.toList dict) (attached : Bool) (ops : List LOp) (hleg : LegalSizes p ops)
+    (hcs : p.contentSize = 0 ∨ p.contentSize = (contentOf ops).length) :
+    ∃ F, pFrame E dict F (frameFrom E hashOf p S0 ((if attached then LOp.attach addr d else LOp.load addr d) :: ops)) = .ok (contentOf ops, []) :=
+  ⟨_, frame_with_dictionary_parses E ok hashOf p hb hcs64 hd32 dict S0 hJ0 addr d hT attached ops hleg hcs⟩
+
+/-- **independent blocks with a CDict**: the prepared stream is attached again before every block; each block decodes against the dictionary alone -/
+theorem independent_cdict_frame_decodes (E : Env) (ok : EnvOKL E) (hashOf : Array UInt8 → Bool → Nat → Nat) (p : Prefs) (hb : 4 ≤ p.bsid ∧ p.bsid ≤ 7)
+    (hcs64 : p.contentSize < 256 ^ 8) (hd32 : p.dictID < 256 ^ 4) (dict : Bytes) (S0 : FastX.XState) (hJ0 : FastX.JX S0)
+    (ps : List (Nat × Array UInt8 × Nat × Array UInt8)) (hleg : LegalI p dict ps)
+    (hcs : p.contentSize = 0 ∨ p.contentSize = (contentOf (expandI ps)).length) :
+    ∃ F, pFrame E dict F (frameFromI E hashOf p S0 (expandI ps)) = .ok (contentOf (expandI ps), []) :=
+  ⟨_, frameI_with_cdict_parses E ok hashOf p hb hcs64 hd32 dict S0 hJ0 ps hleg hcs⟩
+
 /-- the hypotheses on the environment are satisfiable: any 32-bit checksum function with the block specification decoder -/
 theorem linked_environment_exists (hash : Bytes → Nat) (h32 : ∀ l, hash l < 4294967296) : EnvOKL (specEnv hash) := specEnv_okL hash h32
 
